@@ -21,6 +21,7 @@ BUILD = VERIF / 'build'
 EVID = VERIF / 'evidence'
 REPLAY = EVID / 'replay'
 PY = '/venv/bin/python'
+COQ_MEM_KB = int(os.environ.get('VERIF_COQ_MEM_KB', str(20 * 1024 * 1024)))   # virtual-memory cap of each coqc
 
 # axioms declared by Coq's standard library that theorems may depend on
 # (each is named again in the evidence of the property that uses it)
@@ -124,11 +125,12 @@ def regen_project():
             raise RuntimeError('coq_makefile failed: ' + err)
 
 
-def coq_make(targets, timeout=1500, jobs=16):
+def coq_make(targets, timeout=900, jobs=16):
     """full .vo build of the given targets (relative to coq/), under a lock"""
     with Lock('coq'):
         regen_project()
-        cmd = ['make', f'-j{jobs}'] + list(targets)
+        # memory cap per coqc (a diverging proof once took 51 GB and held this lock for 20 min)
+        cmd = ['bash', '-c', 'ulimit -v %d; exec make -j%d "$@"' % (COQ_MEM_KB, jobs), 'make'] + list(targets)
         rc, out, err, dt = sh(cmd, cwd=COQ, timeout=timeout)
     return rc == 0, out + err, dt
 
@@ -136,7 +138,8 @@ def coq_make(targets, timeout=1500, jobs=16):
 def coqc_file(path, timeout=600):
     """compile one scratch file against the project (no lock needed: scratch
     files live under build/<pid>/)"""
-    rc, out, err, dt = sh(['coqc', '-Q', str(COQ), 'FV', '-Q', str(Path(path).parent),
+    rc, out, err, dt = sh(['bash', '-c', 'ulimit -v %d; exec coqc "$@"' % COQ_MEM_KB, 'coqc',
+                           '-Q', str(COQ), 'FV', '-Q', str(Path(path).parent),
                            'Scratch', str(path)], timeout=timeout, cwd=Path(path).parent)
     return rc, out, err, dt
 
